@@ -8,6 +8,7 @@ archive member after stripping the requested path prefix.  Indexing never crashe
 archive contains.
 -/
 import ZoektModel.C15.Lemmas
+import ZoektModel.C15.WalkLemmas
 namespace ZoektModel.C15
 open ZoektModel
 
@@ -124,6 +125,68 @@ theorem symlink_not_followed (ic : IdxCfg) (p : List String) (nm : String) (targ
   simp only [toDoc, Node.payload]
   by_cases h : (decide (target.length > ic.sizeMax) && !ic.largeOk (displayName ic p)) = true <;> simp [h]
 
+/-! ## directories -/
+
+/-- **directory walk, exactness**: for every tree, every `-ignore_dirs` set and every ignore matcher, the walk
+    (`filepath.Walk` driving `fileAggregator.add`, with its `SkipDir` pruning) sends exactly the regular files and
+    symbolic links that lie below no ignored directory name and have no path prefix matching the ignore patterns —
+    each once, in lexical walk order; nothing for a root that itself carries an ignored name -/
+theorem dir_docs_exact (cfg : WalkCfg) (nm : String) (cs : List Node) :
+    walk cfg (.dir nm cs) = (expectedEntries cfg (.dir nm cs)).map mkEntry := by
+  unfold walk expectedEntries
+  rw [walkNode, below_dir]
+  simp only [add, Node.isDir, Node.name, Bool.true_and, List.isEmpty_nil, Bool.not_true, Bool.false_and,
+    Bool.false_eq_true, if_false]
+  by_cases h1 : nm ∈ cfg.ignoreDirs
+  · simp [h1]
+  · simp [h1, walkKids_spec, wanted, pathOk_eq_okExt]
+
+/-- every walked entry lies strictly below the root, so its document name is the slash-relative path -/
+theorem expected_paths_nonempty (cfg : WalkCfg) (root : Node) :
+    ∀ pn ∈ expectedEntries cfg root, pn.1 ≠ [] := by
+  intro pn h
+  unfold expectedEntries at h
+  split at h
+  · simp at h
+  · obtain ⟨e, he, heq⟩ := below_prefix root [] pn (List.mem_filter.mp h).1
+    rw [heq]; simpa using he
+
+/-- **directory indexing, exactness of the documents**: for every tree whose file contents stay within the
+    trigram upper bound, the documents `indexArg` hands to the shard builder — name and stored content — are exactly
+    the ones the statement asks for: one per regular file / symlink outside ignored directories and patterns, named
+    by its relative path, holding the file's bytes resp. the link target, or the skip marker of its class -/
+theorem dir_index_exact_partial (wc : WalkCfg) (ic : IdxCfg) (nm : String) (cs : List Node)
+    (hT : ∀ pn ∈ expectedEntries wc (.dir nm cs), pn.2.payload.length - 2 ≤ ic.trigramMax) :
+    (indexDir wc ic (.dir nm cs)).map (fun d => (d.name, d.stored)) = specDirDocs wc ic (.dir nm cs) := by
+  unfold indexDir specDirDocs
+  rw [dir_docs_exact, List.map_map, List.map_map]
+  apply List.map_congr_left
+  intro pn hpn
+  have hne := expected_paths_nonempty wc _ pn hpn
+  have hdn : displayName ic pn.1 = relStr pn.1 := by
+    unfold displayName
+    cases hp : pn.1 with
+    | nil => exact absurd hp hne
+    | cons a b => simp
+  have hpol := policy_exact_partial ic (mkEntry pn) (Or.inl (hT pn hpn))
+  simp only [mkEntry] at hpol
+  simp only [Function.comp, mkEntry]
+  rw [hpol, hdn]
+  have hname : (builderAdd ic (toDoc ic ⟨pn.1, pn.2⟩)).name = relStr pn.1 := by
+    rw [← hdn]
+    unfold builderAdd toDoc
+    simp only []
+    split <;> (try split) <;> (try split) <;> (try split) <;> rfl
+  rw [hname]
+
+/-- **C15 for directories, as evaluated by the check** -/
+theorem C15_checkDir_partial (wc : WalkCfg) (ic : IdxCfg) (nm : String) (cs : List Node) (render : String × Stored → String)
+    (hT : ∀ pn ∈ expectedEntries wc (.dir nm cs), pn.2.payload.length - 2 ≤ ic.trigramMax) :
+    checkDir ((specDirDocs wc ic (.dir nm cs)).map render)
+      (((indexDir wc ic (.dir nm cs)).map (fun d => (d.name, d.stored))).map render) = true := by
+  rw [dir_index_exact_partial wc ic nm cs hT]
+  simp [checkDir, sameDocs]
+
 /-! ## non-vacuity -/
 
 example : stripComponents ['r', '/', 's', '/', 'm'] 1 = ['s', '/', 'm'] := by rw [strip_spec]; decide
@@ -134,5 +197,18 @@ example : index 1 [⟨.dir, ['t', '/'], []⟩, ⟨.reg, ['t', '/', 'a'], [104, 1
 example : indexOrig 0 [⟨.dir, ['t', '/'], []⟩] = .panic "nil-builder-finish" :=
   (indexOrig_panics_iff _ _).mpr (by decide)
 example : index 0 [⟨.dir, ['t', '/'], []⟩] = .ok [] := by rw [archive_docs_exact]; decide
+
+
+def exTree : Node := .dir "root" [
+  .dir ".git" [.file "config" [1, 2, 3]],
+  .file "a.txt" [104, 105, 33],
+  .symlink "l" [97, 46, 116],
+  .dir "src" [.file "gen.go" [120, 121, 122], .file "m.go" [109, 109, 109]],
+  .other "fifo"]
+def exCfg : WalkCfg := ⟨[".git"], fun p => p == "src/gen.go"⟩
+
+example : (expectedEntries exCfg exTree).map (fun pn => relStr pn.1) = ["a.txt", "l", "src/m.go"] := by decide
+example : (walk exCfg exTree).map (fun e => relStr e.path) = ["a.txt", "l", "src/m.go"] := by
+  rw [exTree, dir_docs_exact]; decide
 
 end ZoektModel.C15
